@@ -60,11 +60,17 @@ func ApplyClusterChanges(config *model.ClusterConfig, currentStatus *model.Clust
 			ReplicationFactor: nc.ReplicationFactor,
 		}
 
+		// A namespace is only created as a whole: if the ensemble for any of its shards cannot be
+		// selected, none of its shards is created (that would leave part of the hash space without an
+		// owner) and the namespace is left for the next cluster change.
+		previousServerIdx := newStatus.ServerIdx
+		refused := false
 		for _, shard := range sharding.GenerateShards(newStatus.ShardIdGenerator, nc.InitialShardCount) {
 			var esm []model.Server
 			if esm, err = ensembleSupplier(&nc, newStatus); err != nil {
 				slog.Error("failed to select new ensembles.", slog.Any("shard", shard), slog.Any("error", err))
-				continue
+				refused = true
+				break
 			}
 			shardMetadata := model.ShardMetadata{
 				Status:   model.ShardStatusUnknown,
@@ -80,6 +86,13 @@ func ApplyClusterChanges(config *model.ClusterConfig, currentStatus *model.Clust
 			nss.Shards[shard.Id] = shardMetadata
 			newStatus.ServerIdx = (newStatus.ServerIdx + nc.ReplicationFactor) % uint32(len(config.Servers))
 			shardsToAdd[shard.Id] = nc.Name
+		}
+		if refused {
+			for shardId := range nss.Shards {
+				delete(shardsToAdd, shardId)
+			}
+			newStatus.ServerIdx = previousServerIdx
+			continue
 		}
 		newStatus.Namespaces[nc.Name] = nss
 
